@@ -12,6 +12,7 @@ def run(ctx):
         (1, C.gen_shared_expiry),
         (1, C.gen_shared_group_expiry),
         (1, C.gen_colliding_groups),
+        (1, C.gen_dash),
     ]
     return C.run_check(ctx, "C02", gens, 110, 6000, router_n=60 if ctx.quick else 3000)
 
